@@ -1,0 +1,54 @@
+//go:build verif
+
+package transport
+
+import (
+	"context"
+	"errors"
+	"net"
+
+	"github.com/IrineSistiana/mosproxy/internal/dnsmsg"
+)
+
+// Add-only access to the lock-protected operations of ONE pipelineConn for the C14 check (kind "connlock"):
+// closeWithErr, Status, Reserve, getQueueC, addQueueC, deleteQueueC, as they are.
+
+type VerifPipeConn struct {
+	c *pipelineConn
+}
+
+// VerifNewPipeConn wraps c into a pipelineConn (its read loop is started, as for a dialled connection).
+// With eol the wire ids of the connection are used up (nextQid = 65536) before anybody can see it.
+func VerifNewPipeConn(c net.Conn, isTCP bool, eol bool) *VerifPipeConn {
+	t := NewPipelineTransport(PipelineOpts{
+		DialContext: func(ctx context.Context) (net.Conn, error) { return nil, errors.New("verif: not dialable") },
+		IsTCP:       isTCP,
+	})
+	pc := newPipelineConn(c, t)
+	if eol {
+		pc.m.Lock()
+		pc.nextQid = 65536
+		pc.m.Unlock()
+	}
+	return &VerifPipeConn{c: pc}
+}
+
+func (v *VerifPipeConn) CloseWithErr(err error) { v.c.closeWithErr(err) }
+
+func (v *VerifPipeConn) Status() (closed, available bool) {
+	s := v.c.Status()
+	return s.Closed, s.Available
+}
+
+func (v *VerifPipeConn) Reserve() { v.c.Reserve() }
+
+func (v *VerifPipeConn) GetQueue(qid uint16) bool { return v.c.getQueueC(qid) != nil }
+
+func (v *VerifPipeConn) AddQueue() (uint16, error) {
+	return v.c.addQueueC(make(chan *dnsmsg.Msg, 1))
+}
+
+func (v *VerifPipeConn) DeleteQueue(qid uint16) { v.c.deleteQueueC(qid) }
+
+// CtxDone reports whether the connection context (what wakes the waiting exchanges) is cancelled.
+func (v *VerifPipeConn) CtxDone() bool { return ctxIsDone(v.c.ctx) }
